@@ -590,4 +590,75 @@ Section Loops.
       exists iC, (VPtr p o), m4. split; [rewrite Ehead; exact E4|]. split; [exact S4|]. split; [|exact J4].
       apply (keeps_trans m m1 m4 K1 K4).
   Qed.
+
+  Lemma scan_l_len : forall L i, length (snd (ExDefs.scan_l i dep L)) = length L.
+  Proof.
+    induction L as [|x L IH]; intro i; [destruct i; reflexivity|]. destruct i as [|i]; cbn [ExDefs.scan_l].
+    - destruct (ExDefs.glob_marked dep x); [reflexivity|]. specialize (IH 0%nat). destruct (ExDefs.scan_l 0 dep L). cbn [snd length] in *. lia.
+    - specialize (IH i). destruct (ExDefs.scan_l i dep L). cbn [snd length] in *. lia.
+  Qed.
+  Lemma glob_scan_len i lb : length (LB (snd (ExDefs.glob_scan i dep lb))) = length (LB lb).
+  Proof.
+    unfold ExDefs.glob_scan. pose proof (scan_l_len (ExDefs.lns lb) i) as H. destruct (ExDefs.scan_l i dep (ExDefs.lns lb)) as [j L2].
+    cbn [snd] in *. exact H.
+  Qed.
+
+  (* ---- (5) THE VISIT LOOP IN SIMULATION WITH glob_loop: by induction on the model's fuel.  The C index and the model's index are equal, or
+     both are at or beyond the end of the buffer (a command list shortened it: both loops end).  Whenever the model's loop ends other than by
+     running out of fuel (exit kind 0: the scan ran off the end; 1: a command list failed), the C loop ends, in a memory that represents the
+     model's final state -- lines, marks, xrow, xgdep -- having called ex_exec exactly where the model calls its executor, on memories that
+     represent the model's states at those calls, in the same order. *)
+  Lemma visit_loop_ok : forall fuelM iM s vis iC m ln fuelC,
+    st_rep m s -> dep = N.of_nat (ExDefs.xgdep s) -> nth_error m b10 = Some [VPtr bs os] ->
+    (iC = Z.of_nat iM \/ (Z.of_nat (length (LB (ExDefs.lb s))) <= iC /\ (length (LB (ExDefs.lb s)) <= iM)%nat)) ->
+    (fuelM + B < fuelC)%nat ->
+    snd (GlobDefs.glob_loop_x rfind mexec fuelM iM pat body nt dep s vis) <> 2%N ->
+    exists iC' ln' m', exec call fuelC visit_loop (ST iC ln m) = ONormal (ST iC' ln' m') /\
+      st_rep m' (fst (fst (GlobDefs.glob_loop_x rfind mexec fuelM iM pat body nt dep s vis))) /\ keeps m m' /\
+      ExDefs.xgdep (fst (fst (GlobDefs.glob_loop_x rfind mexec fuelM iM pat body nt dep s vis))) = ExDefs.xgdep s.
+  Proof.
+    induction fuelM as [|f IH]; intros iM s vis iC m ln fuelC S0 Hd Hs Hidx Hf Hx2; [exfalso; apply Hx2; reflexivity|].
+    destruct fuelC as [|fuelC]; [lia|]. pose proof S0 as ((y & gblk & R) & HB & _).
+    cbn [GlobDefs.glob_loop_x] in Hx2 |- *. fold (LB (ExDefs.lb s)) in Hx2 |- *.
+    destruct (nth_error (LB (ExDefs.lb s)) iM) as [x|] eqn:Hx.
+    - assert (HiM : (iM < length (LB (ExDefs.lb s)))%nat) by (apply nth_error_Some; congruence).
+      destruct Hidx as [->|[_ Hbad]]; [|lia].
+      pose proof (visit_step m s iM x ln fuelC S0 Hd Hx Hs ltac:(lia)) as V. cbv zeta in V.
+      fold (hit_of x) in Hx2 |- *.
+      assert (Ewh : forall o, exec call (S fuelC) visit_body (ST (Z.of_nat iM) ln m) = o ->
+                exec call (S fuelC) visit_loop (ST (Z.of_nat iM) ln m) =
+                match o with ONormal st2 | OContinue st2 => exec call fuelC visit_loop st2 | OBreak st2 => ONormal st2 | o => o end).
+      { intros o Eo. unfold visit_loop. rewrite exec_while. rewrite (eval_in_buf y gblk m _ _ ln R).
+        destruct (Z.ltb_spec (Z.of_nat iM) (Z.of_nat (length (LB (ExDefs.lb s))))); [|lia]. cbn [b2z truth negb Z.eqb]. rewrite Eo. destruct o; reflexivity. }
+      destruct (Bool.eqb (negb (hit_of x)) nt) eqn:Erun; cbn [andb] in V, Hx2 |- *.
+      + pose proof (Hgd (ExDefs.set_xrow s (Z.of_nat iM))) as Hgd1.
+        destruct (mexec body (ExDefs.set_xrow s (Z.of_nat iM))) as [s1 r] eqn:Em. cbn [fst snd] in V, Hgd1.
+        destruct (r =? 0) eqn:Er; cbn [negb] in V, Hx2 |- *.
+        * destruct V as (iC1 & lnv & m1 & Eb & S1 & K1 & J1).
+          pose proof (glob_scan_len (Z.to_nat (Z.min (Z.of_nat iM) (ExDefs.xrow s1))) (ExDefs.lb s1)) as Hlen.
+          destruct (ExDefs.glob_scan (Z.to_nat (Z.min (Z.of_nat iM) (ExDefs.xrow s1))) dep (ExDefs.lb s1)) as [j l] eqn:Es. cbn [fst snd] in S1, J1, Hlen.
+          destruct (IH j (ExDefs.set_lb s1 l) (vis ++ [(ExDefs.lid x, true)]) iC1 m1 lnv fuelC S1) as (iC2 & ln2 & m2 & E2 & S2 & K2 & G2).
+          { cbn [ExDefs.set_lb ExDefs.xgdep]. rewrite Hgd1. exact Hd. }
+          { rewrite (K1 b10 Hb10). exact Hs. }
+          { cbn [ExDefs.set_lb ExDefs.lb]. rewrite Hlen. exact J1. }
+          { lia. } { exact Hx2. }
+          exists iC2, ln2, m2. split; [rewrite (Ewh _ Eb); exact E2|]. split; [exact S2|]. split; [apply (keeps_trans m m1 m2 K1 K2)|].
+          rewrite G2. cbn [ExDefs.set_lb ExDefs.xgdep]. exact Hgd1.
+        * destruct V as (lnv & m1 & Eb & S1 & K1). cbn [fst snd].
+          exists (Z.of_nat iM), lnv, m1. split; [rewrite (Ewh _ Eb); reflexivity|]. split; [exact S1|]. split; [exact K1|exact Hgd1].
+      + cbn [Z.eqb negb andb] in V, Hx2 |- *. destruct V as (iC1 & lnv & m1 & Eb & S1 & K1 & J1).
+        pose proof (glob_scan_len iM (ExDefs.lb s)) as Hlen.
+        destruct (ExDefs.glob_scan iM dep (ExDefs.lb s)) as [j l] eqn:Es. cbn [fst snd] in S1, J1, Hlen.
+        destruct (IH j (ExDefs.set_lb s l) (vis ++ [(ExDefs.lid x, false)]) iC1 m1 lnv fuelC S1) as (iC2 & ln2 & m2 & E2 & S2 & K2 & G2).
+        { cbn [ExDefs.set_lb ExDefs.xgdep]. exact Hd. }
+        { rewrite (K1 b10 Hb10). exact Hs. }
+        { cbn [ExDefs.set_lb ExDefs.lb]. rewrite Hlen. exact J1. }
+        { lia. } { exact Hx2. }
+        exists iC2, ln2, m2. split; [rewrite (Ewh _ Eb); exact E2|]. split; [exact S2|]. split; [apply (keeps_trans m m1 m2 K1 K2)|].
+        rewrite G2. reflexivity.
+    - assert (HiM : (length (LB (ExDefs.lb s)) <= iM)%nat) by (apply nth_error_None; exact Hx).
+      cbn [fst snd]. exists iC, ln, m. split; [|split; [exact S0|split; [apply keeps_refl|reflexivity]]].
+      unfold visit_loop. rewrite exec_while. rewrite (eval_in_buf y gblk m _ _ ln R).
+      destruct (Z.ltb_spec iC (Z.of_nat (length (LB (ExDefs.lb s))))); [lia|]. reflexivity.
+  Qed.
 End Loops.
